@@ -163,13 +163,15 @@ theorem wire_types_in_fragment :
       | some s => s.inFragment && decide (s.ptrDepth ≤ 63)
       | none => false) =
     ["RawBytes", "int64", "uint8", "uint16", "int8", "int16", "int32", "int", "uint32", "uint64", "bytes", "string",
-     "fixed16", "Bstr[int]", "ByteWrap[bytes]", "ByteWrap[Hash]", "Tag[Raw]", "Timestamp", "X509Certificate",
-     "X5Chain", "Hash", "PublicKey", "RvInstruction", "RvInfo", "RvTO2Addr", "To1d", "ErrorMessage", "IntOrStr",
-     "Sign1Tag[Raw]", "Sign1Tag[To1d]", "Sign1Tag[OVHProof]", "Sign1Tag[DeviceSetup]", "Mac0Tag", "Encrypt0Tag",
-     "Encrypt0", "Mac0[Encrypt0]", "VoucherHeader", "DeviceCredential", "TO2.HelloDevice", "TO2.OVHProof",
+     "fixed16", "map[int]bytes", "Bstr[int]", "Bstr[map]", "ByteWrap[bytes]", "ByteWrap[Hash]", "Tag[Raw]",
+     "Timestamp", "X509Certificate", "X5Chain", "Hash", "PublicKey", "RvInstruction", "RvInfo", "RvTO2Addr", "To1d",
+     "ErrorMessage", "IntOrStr", "Sign1Tag[Raw]", "Sign1Tag[Entry]", "Sign1Tag[To1d]", "Sign1Tag[OVHProof]",
+     "Sign1Tag[DeviceSetup]", "Mac0Tag", "Encrypt0Tag", "Encrypt0", "Mac0[Encrypt0]", "Voucher", "VoucherHeader",
+     "VoucherEntryPayload", "DeviceCredential", "TO2.HelloDevice", "TO2.OVHProof", "TO2.OVNextEntry",
      "TO2.DeviceSetup", "TO2.DeviceServiceInfoReady", "TO2.OwnerServiceInfoReady", "TO2.DeviceServiceInfo",
-     "TO2.OwnerServiceInfo", "TO2.Done", "TO2.Done2", "DI.SetCredentials", "TO0.HelloAck", "TO0.AcceptOwner",
-     "TO1.HelloRV", "TO1.HelloRVAck", "SigInfo", "serviceinfo.KV", "TO2.GetOVNextEntry", "DI.SetHmac"] := by decide +kernel
+     "TO2.OwnerServiceInfo", "TO2.Done", "TO2.Done2", "DI.SetCredentials", "TO0.HelloAck", "TO0.to0d",
+     "TO0.OwnerSign", "TO0.AcceptOwner", "TO1.HelloRV", "TO1.HelloRVAck", "SigInfo", "serviceinfo.KV",
+     "TO2.GetOVNextEntry", "DI.SetHmac"] := by decide +kernel
 
 /-- Non-vacuity: a rendezvous redirect (`protocol.To1d`: addresses with nil and non-nil pointers, a hash)
 conforms, marshals, and is read back. -/
